@@ -169,14 +169,18 @@ impl Campaign for ConcCampaign {
         // producers
         let (rtx, rrx) = crossbeam_channel::unbounded::<(usize, Produced)>();
         let mut producer_ids = Vec::new();
+        // all producers make their very first emit at the same moment
+        let start = Arc::new(std::sync::Barrier::new(case.producers as usize));
         for p in 0..case.producers as usize {
             let handle = q.clone();
+            let start = start.clone();
             let rtx = rtx.clone();
             let n = case.per_producer as usize;
             let pattern = util::mix(case.yields, p as u64 + 1);
             let gate = gate.clone();
             let jh = thread::spawn(move || {
                 gate.register_producer(thread::current().id());
+                start.wait();
                 let mut out = Produced {
                     acked: Vec::new(),
                     refused: 0,
@@ -552,6 +556,166 @@ impl Campaign for LastSlotRace {
             nontrivial: contended_rounds >= 10,
             fingerprint: util::hash_json(case),
             classes: vec!["producers race for the last free slot"],
+        }
+    }
+}
+
+// ---------------------------------------------------------------------------
+// many fresh sinks, first emits of all handles released by a barrier
+
+#[derive(Serialize, Deserialize, Clone, Debug)]
+pub struct FirstEmitCase {
+    pub threads: u8,
+    pub per_thread: u8,
+    pub trials: u16,
+    pub cap: Option<usize>,
+}
+
+pub struct FirstEmitRace {
+    pub name: &'static str,
+    pub focus: QRule,
+}
+
+impl Campaign for FirstEmitRace {
+    type Case = FirstEmitCase;
+    fn name(&self) -> &'static str {
+        self.name
+    }
+    fn max_shrink_iters(&self) -> u32 {
+        10
+    }
+    fn strategy(&self, _tier: Tier) -> BoxedStrategy<FirstEmitCase> {
+        (2u8..=4, 2u8..12, 100u16..400, prop_oneof![2 => Just(None), 1 => (16usize..64).prop_map(Some)])
+            .prop_map(|(threads, per_thread, trials, cap)| FirstEmitCase {
+                threads,
+                per_thread,
+                trials,
+                cap,
+            })
+            .boxed()
+    }
+    fn check(&self, case: &FirstEmitCase, ctx: &Ctx) -> Outcome {
+        let w = ctx.w();
+        let mut verdict: Result<(), (QRule, String)> = Ok(());
+        let mut interleaved = 0usize;
+        'trials: for trial in 0..case.trials as usize {
+            let gate = Gate::new();
+            gate.set_open(Some(StepOut::Ok));
+            let g2 = gate.clone();
+            let q = match util::catch(|| {
+                let mut b = QueuingMetricSink::builder();
+                if let Some(c) = case.cap {
+                    b = b.with_capacity(c);
+                }
+                b.build(GatedSink { gate: g2 })
+            }) {
+                Ok(q) => q,
+                Err(p) => {
+                    verdict = Err((QRule::Panic, format!("constructor panicked: {}", p)));
+                    break;
+                }
+            };
+            let n = case.threads as usize;
+            let barrier = std::sync::Barrier::new(n);
+            let per = case.per_thread as usize;
+            let acked: Vec<Vec<String>> = thread::scope(|s| {
+                let mut hs = Vec::new();
+                for t in 0..n {
+                    let h = q.clone();
+                    let barrier = &barrier;
+                    hs.push(s.spawn(move || {
+                        // everything is prepared before the barrier so that the first emits collide
+                        let metrics: Vec<String> = (0..per).map(|i| format!("p{}s{}:1|c", t, i)).collect();
+                        let mut acked = Vec::with_capacity(per);
+                        let _ = util::catch(|| ());
+                        barrier.wait();
+                        for m in metrics {
+                            if let Ok(Ok(_)) = util::catch(|| h.emit(&m)) {
+                                acked.push(m);
+                            }
+                        }
+                        drop(h);
+                        acked
+                    }));
+                }
+                hs.into_iter().map(|h| h.join().unwrap_or_default()).collect()
+            });
+            drop(q);
+            let total: usize = acked.iter().map(|a| a.len()).sum();
+            if !gate.wait_until(w, |g| g.exited >= total) {
+                let got = gate.lock().exited;
+                verdict = Err((
+                    QRule::Deliver,
+                    format!("trial {}: {} emits returned Ok but only {} metrics reached the wrapped sink within {:?}", trial, total, got, w),
+                ));
+                break;
+            }
+            if !gate.wait_until(w, |g| g.released) {
+                verdict = Err((
+                    QRule::Shutdown,
+                    format!(
+                        "[sig=last-drop/wrapped-sink-not-released] trial {}: {} handles made their first emits at the same moment, all handles dropped, every metric delivered, but the wrapped sink was not dropped within {:?}",
+                        trial, n, w
+                    ),
+                ));
+                break;
+            }
+            let g = gate.lock();
+            let mut per_thread: Vec<Vec<&str>> = vec![Vec::new(); n];
+            let mut last = usize::MAX;
+            let mut switches = 0;
+            let mut in_flight = 0i32;
+            for e in g.log.iter() {
+                match e {
+                    Ev::Enter { metric, .. } => {
+                        in_flight += 1;
+                        if in_flight > 1 {
+                            verdict = Err((QRule::Deliver, format!("trial {}: the wrapped sink was handed '{}' while it was still processing another metric (not one at a time)", trial, metric)));
+                            break 'trials;
+                        }
+                        if let Some(t) = metric.strip_prefix('p').and_then(|r| r.split_once('s')).and_then(|(t, _)| t.parse::<usize>().ok()) {
+                            if t < n {
+                                per_thread[t].push(metric.as_str());
+                                if last != usize::MAX && last != t {
+                                    switches += 1;
+                                }
+                                last = t;
+                            }
+                        }
+                    }
+                    Ev::Exit { .. } => in_flight -= 1,
+                    _ => {}
+                }
+            }
+            if switches >= 2 {
+                interleaved += 1;
+            }
+            for t in 0..n {
+                let want: Vec<&str> = acked[t].iter().map(|s| s.as_str()).collect();
+                if per_thread[t] != want {
+                    verdict = Err((
+                        QRule::Deliver,
+                        format!("trial {}: producer {} acknowledged {:?} but the wrapped sink saw {:?}", trial, t, want, per_thread[t]),
+                    ));
+                    break 'trials;
+                }
+            }
+        }
+        let v = match verdict {
+            Ok(()) => Ok(()),
+            Err((rule, msg)) => {
+                if (rule == self.focus || rule == QRule::Panic) && !crate::known::absorb(ctx.property, &msg) {
+                    Err(msg)
+                } else {
+                    Ok(())
+                }
+            }
+        };
+        Outcome {
+            verdict: v,
+            nontrivial: interleaved > 0,
+            fingerprint: util::hash_json(case),
+            classes: vec!["fresh sinks whose handles make their first emits simultaneously"],
         }
     }
 }
